@@ -308,9 +308,11 @@ def b_path(case, ctx):
         ctx.note(nontrivial=mat["cls"] != "identity", cls=f"path{dim}d:{mat['cls']}:arc={bool(case.get('arc'))}:warm={case['warm']}")
         ents0 = [(type(e).__name__, list(map(int, e.points)), bool(e.closed)) for e in p.entities]
         len0 = float(p.length)
+        # validity of the generated polygons is read from an identically built twin so that `p` stays cold
+        valid2d = dim == 2 and all(q is not None for q in build_path(case)[0].polygons_closed)
         if case["warm"]:
             _ = p.discrete, p.paths, p.bounds, p.length
-            if dim == 2:
+            if valid2d:
                 _ = p.polygons_closed, p.area
         sig = f"C04.path{dim}d|{mat['cls']}"
         if case["entry"] == "apply_translation":
@@ -332,7 +334,7 @@ def b_path(case, ctx):
             check(abs(float(p.length) - float(cold.length)) <= 1e-9 * max(1.0, float(cold.length)), sig + f"|length_vs_cold|warm={case['warm']}", f"{p.length} vs {cold.length}")
             check(abs(float(p.length) - s * len0) <= 1e-6 * s * len0, sig + "|length_scaling", f"{p.length} vs s*L={s * len0}")
             check(np.allclose(p.bounds, cold.bounds, rtol=0, atol=1e-9 * (1 + np.abs(cold.bounds).max())), sig + f"|bounds_vs_cold|warm={case['warm']}", "")
-            if dim == 2:
+            if valid2d:
                 check(abs(float(p.area) - float(cold.area)) <= 1e-9 * max(1.0, abs(float(cold.area))), sig + f"|area_vs_cold|warm={case['warm']}", f"{p.area} vs {cold.area}")
         d = abs(np.linalg.det(L))
         if d > 1e-3 and np.abs(M - np.eye(dim + 1)).max() >= 1e-8:
@@ -484,7 +486,9 @@ def b_voxel(case, ctx):
     sig = f"C04.voxel|{mat['cls']}"
     P1 = np.array(vg.points)
     want = hom(M, P0)
-    tol = 1e-9 * max(1.0, np.abs(want).max()) + (4e-8 * (1 + np.abs(P0).max()) if np.abs(M - np.eye(4)).max() < 1e-8 else 0)
+    # documented 1e-8 identity shortcut: of M itself, or of the composed grid transform M.T0
+    near = np.abs(M - np.eye(4)).max() < 1e-8 or np.abs(M @ T0 - np.eye(4)).max() < 1e-8 or np.abs(T0 - np.eye(4)).max() < 1e-8
+    tol = 1e-9 * max(1.0, np.abs(want).max()) + (4e-8 * (1 + np.abs(P0).max() + np.abs(want).max()) if near else 0)
     check(P1.shape == want.shape and np.abs(P1 - want).max() <= tol, sig + "|points", f"{np.abs(P1 - want).max():.3g}")
     check(np.array_equal(np.asarray(vg.encoding.dense), dense), sig + "|encoding_changed", "")
 
